@@ -630,7 +630,11 @@ func (ds *AnySource) HandleExternalTriggers(externalTriggerRowcounts []int64) er
 			return fmt.Errorf("cannot write header to externalTriggerFileBufferedWriter, err %v", err)
 		}
 	}
+	// The counter is also read by ComputeState, which the RPC server calls from its own goroutine
+	// (ReadComment) while this loop runs: update it under the lock that ComputeState takes.
+	ds.writingState.Lock()
 	ds.writingState.externalTriggerNumberObserved += len(externalTriggerRowcounts)
+	ds.writingState.Unlock()
 	if ds.writingState.externalTriggerFileBufferedWriter != nil && len(externalTriggerRowcounts) > 0 {
 		_, err := ds.writingState.externalTriggerFileBufferedWriter.Write(getbytes.FromSliceInt64(externalTriggerRowcounts))
 		if err != nil {
@@ -645,11 +649,14 @@ func (ds *AnySource) HandleExternalTriggers(externalTriggerRowcounts []int64) er
 				return fmt.Errorf("cannot flush externalTriggerFileBufferedWriter, err %v", err)
 			}
 		}
+		ds.writingState.Lock()
+		numberObserved := ds.writingState.externalTriggerNumberObserved
+		ds.writingState.externalTriggerNumberObserved = 0
+		ds.writingState.Unlock()
 		clientMessageChan <- ClientUpdate{tag: "EXTERNALTRIGGER",
 			state: struct {
 				NumberObservedInLastSecond int
-			}{NumberObservedInLastSecond: ds.writingState.externalTriggerNumberObserved}} // only exported fields are serialized
-		ds.writingState.externalTriggerNumberObserved = 0
+			}{NumberObservedInLastSecond: numberObserved}} // only exported fields are serialized
 	default:
 	}
 
